@@ -11,11 +11,11 @@ Definition pinned_pat_vq_forward : list (string * string) :=
    ("rearrange", "$dist_einops_eq");
    ("rearrange", "h b n -> b n h");
    ("rearrange", "1 (b h) n -> b n h");
-   ("rearrange", "b (h w) ... -> b h w ...");
-   ("rearrange", "b 1 ... -> b ...");
    ("reduce", "... n l -> n l");
    ("repeat", "b n -> b n h");
    ("repeat", "b n -> c (b h) n");
+   ("rearrange", "b (h w) ... -> b h w ...");
+   ("rearrange", "b 1 ... -> b ...");
    ("rearrange", "h b n d -> b n (h d)");
    ("rearrange", "1 (b h) n d -> b n (h d)");
    ("rearrange", "b n d -> b d n");
